@@ -222,10 +222,17 @@ def oracle(run: runner.Run, oc: Outcome) -> None:
                                 want_verdict = 'success'
                             elif c.outcome == 'perm' or (c.outcome == 'exc' and mode_h == 'permanent'):
                                 want_verdict = 'failure'
-                            if want_verdict is None:
-                                continue
                             recs_ = [st.record_for(w.after, hid) for w in s.writes if w.after is not None]
                             recs_ = [r for r in recs_ if r is not None]
+                            if want_verdict is None:
+                                # a failed attempt that is to be retried (or has run out of attempts) is never a success
+                                if c.outcome in ('temp', 'exc') and recs_ and recs_[-1].get('success') \
+                                        and not allspecs.get(hid, {}).get('subs'):
+                                    oc.add('C11/wrong-verdict', f'{c.outcome}:{mode_h}:recorded-as-success',
+                                           f"handler {hid} of {uid} ended its attempt #{c.n} with {c.outcome!r} under "
+                                           f"errors={mode_h}; it must be retried or recorded as failed, but the record says "
+                                           f"success: {recs_[-1]}", uid=uid, hid=hid)
+                                continue
                             if recs_ and common.finished(recs_[-1]) and not recs_[-1].get(want_verdict):
                                 oc.add('C11/wrong-verdict', f'{c.outcome}:{mode_h}',
                                        f"handler {hid} of {uid} ended its attempt #{c.n} with {c.outcome!r} under "
